@@ -373,7 +373,7 @@ def run_jobs(jobs, tmpdir, prop):
     # observation; a job counts as hung when it has not finished within the limit AND its heartbeat has been silent for
     # `silent` seconds (a slow machine keeps the heartbeat alive, a spinning run() does not)
     limit = 6 * max(j[0].get('max_seconds', 14) for j in jobs) + 90
-    silent = 300
+    silent = 300 if max(j[0].get('max_seconds', 14) for j in jobs) <= 60 else 1500      # thorough tier: one bound over tens of thousands of points on a loaded machine is slow, not hung
     hb = [os.path.join(tmpdir, 'hb_%s_%d' % (prop, i)) for i in range(len(jobs))]
     for i, j in enumerate(jobs):
         j[0]['heartbeat'] = hb[i]
